@@ -10,6 +10,8 @@
 mod c01;
 mod c19;
 mod c19gen;
+mod c20;
+mod c20gen;
 mod cli;
 mod oracle;
 mod gen;
@@ -49,7 +51,47 @@ fn main() {
         }
         "c01" => c01::main_c01(tier, seed_from_env()),
         "c19" => c19::main_c19(tier, seed_from_env()),
+        "c20" => c20::main_c20(tier, seed_from_env()),
         "oracle" => oracle::main_oracle(),
+        "wordstats" => {
+            let d = gen::Data::load();
+            let mut o = oracle::Oracle::new(5);
+            let mut bad = 0;
+            for i in 0..3000u64 {
+                let mut r = prng::Rng::derive(1, 1, i);
+                let w = gen::gen_word(&d, &mut r);
+                if let oracle::Ans::Err(e) = o.run(&oracle::Req { rules: vec![], words: vec![w.clone()], into: vec![], from: vec![] }) {
+                    bad += 1;
+                    if bad < 40 {
+                        println!("{w:?}: {}", e.lines().next().unwrap_or(""));
+                    }
+                }
+            }
+            println!("bad {bad} / 3000");
+            0
+        }
+        "errstats" => {
+            let d = gen::Data::load();
+            let mut o = oracle::Oracle::new(5);
+            let mut tally: std::collections::BTreeMap<String, u32> = Default::default();
+            for i in 0..1500u64 {
+                let mut r = prng::Rng::derive(1, 1, i);
+                let m = c19gen::gen_model(&d, &mut r);
+                let a = o.run(&oracle::Req { rules: m.rules.clone(), words: m.words.clone(), into: m.into.clone(), from: m.from.clone() });
+                let k = match a {
+                    oracle::Ans::Ok(_) => "ok".to_string(),
+                    oracle::Ans::Err(e) => format!("err: {}", e.lines().next().unwrap_or("").chars().take(60).collect::<String>()),
+                    x => format!("{x:?}"),
+                };
+                *tally.entry(k).or_default() += 1;
+            }
+            let mut v: Vec<_> = tally.into_iter().collect();
+            v.sort_by_key(|x| std::cmp::Reverse(x.1));
+            for (k, n) in v.iter().take(25) {
+                println!("{n:5} {k}");
+            }
+            0
+        }
         "selftest" => selftest::main_selftest(tier),
         "replay" => {
             let path = args.get(2).unwrap_or_else(|| gen::harness_error("replay: missing file"));
@@ -58,6 +100,7 @@ fn main() {
             match doc.get("engine").and_then(|v| v.as_str()) {
                 Some("c01") => c01::replay(&doc, path),
                 Some("c19") => c19::replay(&doc, path),
+                Some("c20") => c20::replay(&doc, path),
                 other => gen::harness_error(&format!("replay: unknown engine {other:?}")),
             }
         }
